@@ -111,6 +111,8 @@ def _lax_family(rng):
 
 
 def make_case(i, rng, tier):
+    # Decimal rules that combine a regex with decimal_places: the output of the completion must still be a fixed point
+    TS.ENABLE_REGEX_BEFORE_DECIMAL_PLACES = True
     fam = "B" if i % 3 == 0 else "A"
     if fam == "B":
         spec, pool = _lax_family(rng)
